@@ -973,7 +973,7 @@ def _record(rep, res, rp, dk):
 # run_iloc
 
 MIXES_QUICK = ['i', 'f', 'U', 'ii', 'if', 'bO', 'iii', 'ifU', 'UUb', 'iiii', 'iiff', 'ifUO']
-MIXES_THOROUGH = MIXES_QUICK + ['fiif', 'bOOM', 'ffff', 'iifU', 'Uiib', 'OOOO', 'fff', 'ibb', 'MM', 'iM', 'iiif', 'fiii', 'bbUU']
+MIXES_THOROUGH = MIXES_QUICK + ['UUb', 'fiif', 'bOOM', 'iifU', 'OOOO', 'fff', 'ibb', 'MM', 'iM', 'iiif']
 
 
 def _frame_cases_iloc(tier):
@@ -983,7 +983,7 @@ def _frame_cases_iloc(tier):
         if tier == 'quick':
             rows_opts = (3,) if m == 4 else ((0, 1, 3) if m == 1 else (0, 4) if m == 2 else (1, 2) if kinds == 'ifU' else (2,))
         else:
-            rows_opts = (0, 1, 2, 3, 4)
+            rows_opts = (0, 1, 2, 3, 4) if m < 4 else (2, 3, 4) if kinds in ('iiii', 'iiff', 'ifUO') else (1, 3)
         for rows in rows_opts:
             cols = [col_array(k, j, rows) for j, k in enumerate(kinds)]
             for lay in layouts_dtype_safe(cols):
@@ -1057,16 +1057,18 @@ def _loc_cases(tier):
                 yield ('series', kind, n, axk)
         for n in (2, 4) if tier == 'quick' else (1, 2, 3, 4):
             yield ('series-dt', 'i', n, axk) if axk in DATE_TEXT else ('noop',)
-    mixes = ['ifU', 'iiOb'] if tier == 'quick' else ['ifU', 'iiOb', 'ii', 'fUUi', 'b']
+    mixes = ['ifU', 'iiOb'] if tier == 'quick' else ['ifU', 'iiOb', 'ii', 'b']
     pairs = [(a, 'str') for a in AXIS_KINDS] + [('str', b) for b in AXIS_KINDS if b != 'str'] + [('int', 'int'), ('auto', 'auto'), ('ih', 'ih'), ('D', 'int'), ('auto', 'D')]
     if tier != 'quick':
-        pairs += [('Mo', 's'), ('s', 'Mo'), ('D', 'D'), ('ih', 'auto'), ('int', 'ih')]
+        pairs += [('Mo', 's'), ('ih', 'auto')]
     for kinds in mixes:
-        for rows in (3,) if tier == 'quick' else (1, 2, 3, 4):
+        for rows in (3,) if tier == 'quick' else (1, 2, 4):
             cols = [col_array(k, j, rows) for j, k in enumerate(kinds)]
             lays = list(layouts_dtype_safe(cols))
             if tier == 'quick':
                 lays = [lays[0], lays[-1]] if len(lays) > 1 else lays
+            elif len(lays) > 8:
+                lays = lays[::3] + [lays[-1]]
             for lay in lays:
                 for rax, cax in pairs:
                     for part in ('rows', 'cols', 'getitem'):
@@ -1084,7 +1086,7 @@ def representative_label(ax):
     out = [('null',)]
     if n:
         out += [('lab', n - 1), ('lablist', [n - 1, 0] if n > 1 else [0]), ('labslice', 0, n - 1, 2), ('bool', [i % 2 == 0 for i in range(n)]),
-                ('bseries', [[n - 1, True], [['x', 0], True], [0, False]]), ('iloc', ('int', -1)), ('iloc', ('slice', None, None, -1)),
+                ('bseries', [[n - 1, True], [['x', 0], True], [0, False]] if n > 1 else [[['x', 0], True], [0, True]]), ('iloc', ('int', -1)), ('iloc', ('slice', None, None, -1)),
                 ('lab', ['x', 0]), ('labindex', [0]), ('lablist', [])]
     return out
 
